@@ -199,8 +199,9 @@ class WebSocketApp:
         Close websocket connection.
         """
         self.keep_running = False
-        if self.sock:
-            self.sock.close(**kwargs)
+        sock = self.sock  # another thread (teardown) may set self.sock to None meanwhile
+        if sock:
+            sock.close(**kwargs)
             self.sock = None
 
     def _start_ping_thread(self) -> None:
@@ -351,8 +352,9 @@ class WebSocketApp:
 
             self._stop_ping_thread()
             self.keep_running = False
-            if self.sock:
-                self.sock.close()
+            sock = self.sock  # close() from another thread may set self.sock to None meanwhile
+            if sock:
+                sock.close()
             close_status_code, close_reason = self._get_close_args(
                 close_frame if close_frame else None
             )
